@@ -15,6 +15,8 @@ Descriptor:
   outmap    None | {state: value | 'U'}           'U' -> calc_output returns UNDEF
   initdef   state | None
   on_enter, on_exit [states]; notrans, on_output: bool
+  flaky     None | {'until': T, 'exit': [states], 'enter': [states]}   extra on_exit / on_enter event to a
+            destination that raises EdzedUnknownEvent (a non-fatal error) before the instant T
   steps     [{'t': instant, 'ev': name | ['goto', state], 'data': {...}}]
   stop      instant
 durations: number | 'INF' | None | string from DURSTR
@@ -55,6 +57,10 @@ class Fatal(Exception):
     pass
 
 
+class NonFatal(Exception):
+    """an output event of the FSM hit a destination that does not know the event (EdzedUnknownEvent)"""
+
+
 class Tie(Exception):
     """the model met an undecided tie (more choices needed)"""
 
@@ -86,6 +92,7 @@ class Model:
         self.chained = False
         self.precedence = False
         self.stale_cancelled = 0
+        self.nonfatal = 0
         self.driver_at = None
         self.default_choice = None
 
@@ -108,6 +115,15 @@ class Model:
         data = dict(data)
         data['source'] = 'f'
         self.log.append(('ev', etype, data, self.now))
+
+    def flk(self, kind, state):
+        fl = self.d.get('flaky')
+        if not fl or state not in fl[kind]:
+            return
+        ok = self.now >= fl['until']
+        self.log.append(('flk', ok, self.now))
+        if not ok:
+            raise NonFatal()
 
     def calc(self):
         om = self.d['outmap']
@@ -202,6 +218,7 @@ class Model:
                 if self.state in d['on_exit']:
                     self.send('exit', {'trigger': 'exit', 'state': self.state,
                                        'value': self.output, 'sdata': self.visible_sdata()})
+                self.flk('exit', self.state)
                 if self.timer is not None:
                     self.stale_cancelled += 1
                 self.timer = None
@@ -227,6 +244,7 @@ class Model:
             if self.state in d['on_enter']:
                 self.send('enter', {'trigger': 'enter', 'state': self.state,
                                     'value': vis(self.output), 'sdata': self.visible_sdata()})
+            self.flk('enter', self.state)
             return True
         finally:
             self.active = False
@@ -258,6 +276,9 @@ class Model:
             if self.error is None:
                 self.error = 'EdzedCircuitError'
             return ['EXC', 'EdzedCircuitError']
+        except NonFatal:
+            self.nonfatal += 1
+            return ['EXC', 'EdzedUnknownEvent']
         if r == 'UNKNOWN':
             return ['EXC', 'EdzedUnknownEvent']
         if r:
@@ -297,8 +318,9 @@ class Model:
         d = self.d
         out = []
         init = d['initdef'] or d['states'][0]
-        self.guarded(['goto', init], {})
-        if self.error or self.output is UNDEF:
+        r0 = self.guarded(['goto', init], {})
+        # an exception leaving the initialisation routine (even a non-fatal kind) fails the start-up
+        if self.error or self.output is UNDEF or isinstance(r0, list):
             return [['INITFAIL']], self.log
         out.append(self.observe('init', None))
         for k, step in enumerate(d['steps']):
@@ -461,10 +483,14 @@ def build_fsm(desc, log, clock):
         cls = edzed.InputExp
         kw.update(desc['lib_kwargs'])
         kw['duration'] = dur_real(kw['duration'])
-    for s in desc['on_enter']:
-        kw['on_enter_' + s] = edzed.Event('rec', 'enter')
-    for s in desc['on_exit']:
-        kw['on_exit_' + s] = edzed.Event('rec', 'exit')
+    fl = desc.get('flaky') or {'enter': [], 'exit': []}
+    for s in desc['states']:
+        for trig in ('enter', 'exit'):
+            evs = [edzed.Event('rec', trig)] if s in desc['on_' + trig] else []
+            if s in fl[trig]:
+                evs.append(edzed.Event('flk', 'poke'))
+            if evs:
+                kw[f'on_{trig}_{s}'] = evs
     if desc['notrans']:
         kw['on_notrans'] = edzed.Event('rec', 'notrans')
     if desc['on_output']:
@@ -499,6 +525,19 @@ def run_real(desc):
             data = {k: vis(v) for k, v in rec['data'].items()}
             log.append(('ev', rec['etype'], data, clock()))
         harness.Recorder('rec', x_log=[], x_hook=rechook)
+        if desc.get('flaky'):
+            until = desc['flaky']['until']
+
+            class Flaky(edzed.SBlock):
+                def init_regular(self):
+                    self.set_output(0)
+
+                def _event(self, etype, data):
+                    ok = clock() >= until
+                    log.append(('flk', ok, clock()))
+                    if not ok:
+                        raise edzed.EdzedUnknownEvent(f"{self}: Unknown event type {etype!r}")
+            Flaky('flk')
         try:
             f = build_fsm(desc, log, clock)
         except Exception as err:
@@ -647,7 +686,7 @@ def _tev(draw, states, events):
 
 
 @st.composite
-def fsm_desc(draw, max_states=3, max_events=2, timers=False, chains=True, grid=0.5):
+def fsm_desc(draw, max_states=3, max_events=2, timers=False, chains=True, grid=0.5, flaky=False):
     ns = draw(st.integers(1, max_states))
     ne = draw(st.integers(1, max_events))
     states = [f's{i}' for i in range(ns)]
@@ -730,6 +769,15 @@ def fsm_desc(draw, max_states=3, max_events=2, timers=False, chains=True, grid=0
         steps.append({'t': t, 'ev': ev, 'data': data})
     desc['steps'] = steps
     desc['stop'] = t + draw(st.sampled_from([0.0, grid, 1.0, 2.0, 5.0, 10.0])) if timers else t
+    if flaky and draw(st.integers(0, 3)) == 0:
+        # an output event whose destination refuses it (non-fatally) for some time; the instant
+        # lies off the time grid, so it never ties with a step or a timer
+        init = desc['initdef'] or states[0]
+        desc['flaky'] = {'until': draw(st.sampled_from([0.25, 1.25, 2.25, 3.75, 100.25])) if timers else
+                         draw(st.sampled_from([0.5, 1.5, 2.5, 100.5])),
+                         'exit': draw(st.lists(st.sampled_from(states), unique=True, min_size=1)),
+                         'enter': draw(st.lists(st.sampled_from([s for s in states if s != init] or [None]),
+                                                unique=True).map(lambda l: [x for x in l if x]))}
     return desc
 
 
